@@ -14,6 +14,8 @@ import json
 import os
 import random
 import re
+import subprocess
+import sys
 
 from .. import gen, harness, oracles, runner
 from ..world import SimWorld
@@ -30,7 +32,7 @@ REAL_COMPONENTS = ["cli _run launch loop", "expand_run_space (plan source)", "Ru
 STUB_COMPONENTS = ["leaf processors", "SvOrchestrator/RecordingExecutor selected from YAML", "SimClock/SimUUID", "file seam"]
 ASSUMPTIONS = ["the plan is taken from expand_run_space (C08 is not claimed)", "trace content is compared after removing the C10 "
                "volatile fields and the run-space FK fields (launch id, attempt, index, context)"]
-REQUIRED_PROBES = ["failing_run", "source_file", "idempotency_key", "explicit_launch_id", "attempt_gt_1", "multi_run_launch", "directory_mode"]
+REQUIRED_PROBES = ["other_process_other_hashseed", "failing_run", "source_file", "idempotency_key", "explicit_launch_id", "attempt_gt_1", "multi_run_launch", "directory_mode"]
 CONFIG = {
     "quick": {"runs": 300, "budget_s": 170, "timeout_s": 180},
     "thorough": {"runs": 15000, "budget_s": 1600, "timeout_s": 180},
@@ -55,6 +57,7 @@ def generate(rng: random.Random, tier: str, seed: int) -> dict:
           "mode": rng.choice(["file", "dir"]), "detail": rng.choice(harness.DETAILS), "launch_opt": opt,
           "attempt": rng.choice([1, 1, 2, 3]), "fail_at": rng.choice([None, None, 0, 1, 2, 3]),
           "fail_node": rng.randrange(len(base["nodes"])), "mut_seed": rng.getrandbits(32)}
+    sc["hashseed"] = rng.choice([1, 2, 3, 5, 6, 7, 11]) if (rsd["files"] or rng.random() < 0.15) else None
     return sc
 
 
@@ -183,11 +186,48 @@ def _mutate_plan(rs: dict, rng: random.Random) -> dict | None:
     return rs
 
 
+def _child_main() -> int:
+    """Fresh interpreter (other PYTHONHASHSEED): `inspect` and one launch of the same configuration in the same directory."""
+    harness.setup_process()
+    req = json.loads(sys.stdin.read())
+    sc, seed = req["sc"], req["seed"]
+    w = SimWorld(seed, lane="c09")
+    try:
+        for fn, text in sc["files"].items():
+            with open(fn, "w") as f:
+                f.write(text)
+        L = _launch(sc, w, "launch", sc["run_space"], opt=sc["launch_opt"])
+        st = next((r for r in L["records"] if r.get("record_type") == "run_space_start"), {})
+        out = {"inspect_spec_id": _inspect_spec_id("launch"), "trace_spec_id": st.get("run_space_spec_id"),
+               "inputs_id": st.get("run_space_inputs_id"), "launch_id": st.get("run_space_launch_id"), "sandbox": w.sandbox}
+    finally:
+        w.close()
+    print("RESULT " + json.dumps(out))
+    return 0
+
+
+def _other_process(sc: dict, seed: int, hashseed: int) -> dict:
+    env = dict(os.environ, PYTHONHASHSEED=str(hashseed))
+    p = subprocess.run([sys.executable, "-m", "svsim.props.c09", "child"], input=json.dumps({"sc": sc, "seed": seed}), env=env,
+                       capture_output=True, text=True, timeout=200)
+    for line in p.stdout.splitlines():
+        if line.startswith("RESULT "):
+            return json.loads(line[7:])
+    raise RuntimeError(f"fresh interpreter failed: {p.stdout[-1000:]} {p.stderr[-1500:]}")
+
+
 def execute(sc: dict, seed: int) -> dict:
     stats: dict = {}
     viols: list[dict] = []
+    other = None
+    if sc.get("hashseed") is not None:
+        # runs BEFORE this process creates its world so that both use the same sandbox directory (file URIs enter the ids)
+        other = _other_process(sc, seed, sc["hashseed"])
+        stats["probe.other_process_other_hashseed"] = 1
     w = SimWorld(seed, lane="c09")
     try:
+        if other is not None and other.get("sandbox") != w.sandbox:
+            other = None   # directory collision: ids containing the path are not comparable
         for fn, text in sc["files"].items():
             with open(fn, "w") as f:
                 f.write(text)
@@ -300,6 +340,15 @@ def execute(sc: dict, seed: int) -> dict:
         insp = _inspect_spec_id("launch")
         if spec_id is not None and insp != spec_id:
             viols.append(oracles.V("spec_id", "inspect_ne_trace", f"{where}; inspect prints {insp}, run_space_start has {spec_id}"))
+        if other is not None:
+            # `inspect` and `run` are normally separate processes (each with its own hash seed)
+            if other["inspect_spec_id"] != spec_id or other["trace_spec_id"] != spec_id:
+                viols.append(oracles.V("spec_id", "differs_across_processes", f"{where}; this process {spec_id}; other process (PYTHONHASHSEED={sc['hashseed']}) "
+                                       f"inspect={other['inspect_spec_id']} trace={other['trace_spec_id']}"))
+            if other["inputs_id"] != inputs_id:
+                viols.append(oracles.V("inputs_id", "differs_across_processes", f"{where}; {inputs_id} vs {other['inputs_id']}"))
+            if sc["launch_opt"] == "idem" and other["launch_id"] != launch_id:
+                viols.append(oracles.V("launch_id", "idempotency_key_not_reproducible_across_processes", f"{where}; {launch_id} vs {other['launch_id']}"))
         mrng = random.Random(sc["mut_seed"])
         L2 = _launch(sc, w, "cosmetic", _cosmetic(rs, mrng), opt=sc["launch_opt"])
         s2 = next((r for r in L2["records"] if r.get("record_type") == "run_space_start"), {})
@@ -373,6 +422,8 @@ def _canon(c):
 
 
 def shrink_candidates(sc: dict):
+    if sc.get("hashseed") is not None:
+        yield dict(sc, hashseed=None)
     if sc["fail_at"] is not None:
         yield dict(sc, fail_at=None)
     if sc["launch_opt"] != "generated":
@@ -398,3 +449,8 @@ def shrink_candidates(sc: dict):
         if t is None or any(x["missing"] or not x["type_ok"] for x in t):
             continue
         yield dict(sc, base=b, fail_node=min(sc["fail_node"], n - 2))
+
+
+if __name__ == "__main__":
+    if len(sys.argv) > 1 and sys.argv[1] == "child":
+        sys.exit(_child_main())
